@@ -757,6 +757,17 @@ def run_verus(path, header, ext, extra=(), timeout=900):
     if header.get("flags"):
         cmd += header["flags"].split(",")
     cmd += list(extra)
+    # `--rlimit` may come both from the unit header and from the tier: keep the larger one only
+    rl = [float(cmd[i + 1]) for i in range(len(cmd) - 1) if cmd[i] == "--rlimit"]
+    if len(rl) > 1:
+        out, i = [], 0
+        while i < len(cmd):
+            if cmd[i] == "--rlimit":
+                i += 2
+                continue
+            out.append(cmd[i])
+            i += 1
+        cmd = out + ["--rlimit", str(int(max(rl)))]
     t0 = time.time()
     try:
         p = subprocess.run(cmd, capture_output=True, text=True, timeout=timeout, cwd=os.path.dirname(path))
